@@ -47,8 +47,17 @@ import glob as _glob
 import os as _os
 
 _ALL = ["C%02d" % i for i in range(1, 21)]
+# rewrites that leave the model (reported as `cannot analyse`, exit 2, by the listed checks - never as a violation):
+#   r45: a NamedTuple WITH a method bundles the six creator options (R11.8 cannot take it apart)
+#   r48: the manifest reader dispatches through dictionaries and setattr() with computed names (call graph soundness condition)
+_NO_ALARM_ONLY = {"r45": ["C11"], "r48": _ALL}
 for _d in sorted(_glob.glob(_os.path.join(_os.path.dirname(_os.path.abspath(__file__)), "refactors", "r*"))):
-    P(f"refactoring {_os.path.basename(_d)} (behaviour preserving)", _ALL, f"refactors/{_os.path.basename(_d)}/patch.diff", "silent")
+    _r = _os.path.basename(_d)
+    _weak = _NO_ALARM_ONLY.get(_r, [])
+    if [c for c in _ALL if c not in _weak]:
+        P(f"refactoring {_r} (behaviour preserving)", [c for c in _ALL if c not in _weak], f"refactors/{_r}/patch.diff", "silent")
+    if _weak:
+        P(f"refactoring {_r} (behaviour preserving, outside the model)", list(_weak), f"refactors/{_r}/patch.diff", "no-alarm")
 
 # ------------------------------------------------------------------ C01
 LOOP1 = """            chunk = fd.read(size)
